@@ -347,15 +347,26 @@ impl<S: Write + Seek> W<S> {
                     Some(d) => d,
                     None => return Res::Err("<no such source>".into()),
                 };
+                fn copy<S: Write + Seek, R: Read + Seek>(z: &mut ZipWriter<S>, r: R, idx: usize, rename: &Option<String>, raw_open: bool) -> Result<(), String> {
+                    let mut ar = ZipArchive::new(r).map_err(|e| format!("source open: {e}"))?;
+                    let f = if raw_open { ar.by_index_raw(idx) } else { ar.by_index(idx) }.map_err(|e| format!("source entry: {e}"))?;
+                    match rename {
+                        Some(n) => z.raw_copy_file_rename(f, n.clone()),
+                        None => z.raw_copy_file(f),
+                    }
+                    .map_err(|e| e.to_string())
+                }
+                let chunk = SRC_CHUNK.with(|c| c.get());
                 self.run(
                     |z| {
-                        let mut ar = ZipArchive::new(Cursor::new(&data[..])).map_err(|e| format!("source open: {e}"))?;
-                        let f = if *raw_open { ar.by_index_raw(*idx) } else { ar.by_index(*idx) }.map_err(|e| format!("source entry: {e}"))?;
-                        match rename {
-                            Some(n) => z.raw_copy_file_rename(f, n.clone()),
-                            None => z.raw_copy_file(f),
+                        if chunk > 0 {
+                            let p = crate::sio::inst::plan();
+                            p.borrow_mut().record_kinds = false;
+                            p.borrow_mut().chunk = Some(chunk);
+                            copy(z, crate::sio::inst::Inst::new(data.clone(), p), *idx, rename, *raw_open)
+                        } else {
+                            copy(z, Cursor::new(&data[..]), *idx, rename, *raw_open)
                         }
-                        .map_err(|e| e.to_string())
                     },
                     |_| 0,
                 )
@@ -398,6 +409,32 @@ pub fn exec(calls: &[Call], sources: &[Vec<u8>]) -> (Vec<Res>, Vec<u8>) {
         out.push(w.call(c, sources));
     }
     drop(w);
+    (out, sink.snapshot())
+}
+
+thread_local! {
+    /// when non-zero, raw copies read their source archive through a stream that transfers at most this many bytes per read
+    pub static SRC_CHUNK: std::cell::Cell<usize> = const { std::cell::Cell::new(0) };
+}
+
+/// Like `exec`, but the sink accepts at most `sink_chunk` bytes per write call (0 = unlimited) and raw-copy
+/// sources deliver at most `src_chunk` bytes per read call (0 = unlimited).
+pub fn exec_chunked(calls: &[Call], sources: &[Vec<u8>], sink_chunk: usize, src_chunk: usize) -> (Vec<Res>, Vec<u8>) {
+    use crate::sio::inst::{plan, Inst};
+    let sink = SharedBuf::default();
+    let p = plan();
+    p.borrow_mut().record_kinds = false;
+    if sink_chunk > 0 {
+        p.borrow_mut().chunk = Some(sink_chunk);
+    }
+    SRC_CHUNK.with(|c| c.set(src_chunk));
+    let mut w = W::new(Inst::over(sink.clone(), p));
+    let mut out = Vec::with_capacity(calls.len());
+    for c in calls {
+        out.push(w.call(c, sources));
+    }
+    drop(w);
+    SRC_CHUNK.with(|c| c.set(0));
     (out, sink.snapshot())
 }
 
